@@ -43,6 +43,9 @@ pub enum Step {
     Select { a: u64, b: u64 },
     /// create `sleep(d)`, poll it once, drop it
     PollDrop(u64),
+    /// two `sleep(d)` of the same task with the same deadline, both polled once (the first registers first); the first
+    /// is dropped, the second is awaited
+    TwinDrop(u64),
     /// pinned `sleep(d1)`, polled once, then reset to now + d2 and awaited
     Reset { d1: u64, d2: u64 },
     /// pinned `sleep(d1)`, polled once; the task then waits `wait >= d1` for another timer, so the deadline is
@@ -187,6 +190,15 @@ async fn run_script(module: usize, task: usize, steps: Vec<Step>, alt: bool, mut
             Step::PollDrop(d) => {
                 let s = pin!(sleep(dur(*d)));
                 let _ = futures::poll!(s);
+                0
+            }
+            Step::TwinDrop(d) => {
+                let mut first = Box::pin(sleep(dur(*d)));
+                let mut second = pin!(sleep(dur(*d)));
+                let _ = futures::poll!(first.as_mut());
+                let _ = futures::poll!(second.as_mut());
+                drop(first);
+                second.await;
                 0
             }
             Step::Reset { d1, d2 } => {
@@ -415,6 +427,10 @@ fn interpret(mi: usize, ti: usize, task: &Task, start: u64) -> Vec<LogRec> {
                         br
                     }
                     Step::PollDrop(_) => 0,
+                    Step::TwinDrop(d) => {
+                        now += d;
+                        0
+                    }
                     Step::Reset { d2, .. } => {
                         now += d2;
                         0
@@ -645,6 +661,7 @@ pub fn gen_task_with(rng: &mut Rng, max_steps: usize, allow_recv: bool) -> Task 
                     steps.push(Step::Select { a: b, b: a });
                 }
             }
+            8 if rng.chance(1, 3) => steps.push(Step::TwinDrop(d(rng))),
             8 => steps.push(Step::PollDrop(if rng.chance(1, 6) { u64::MAX } else { d(rng) })),
             9 => {
                 if rng.chance(1, 2) {
@@ -663,8 +680,16 @@ pub fn gen_task_with(rng: &mut Rng, max_steps: usize, allow_recv: bool) -> Task 
                 let behavior = *rng.pick(&[Behavior::Burst, Behavior::Delay, Behavior::Skip]);
                 if rng.chance(1, 3) {
                     // first tick due 50 / 10 ms ago, now, or in 10 / 100 ms
-                    let (back, fwd) = *rng.pick(&[(50 * MS, 0), (10 * MS, 0), (0, 0), (0, 10 * MS), (0, 100 * MS)]);
+                    let (back, fwd) = *rng.pick(&[(50 * MS, 0), (10 * MS, 0), (0, 0), (0, 10 * MS), (0, 100 * MS), (0, 300 * MS)]);
                     steps.push(Step::IntervalAt { back, fwd, period, behavior });
+                    // a reset before the first tick (the first tick may be further away than one period: the reset
+                    // then pulls it closer)
+                    if rng.chance(1, 3) {
+                        if rng.chance(1, 2) {
+                            steps.push(Step::Sleep(10 * MS));
+                        }
+                        steps.push(Step::IntervalReset);
+                    }
                 } else {
                     steps.push(Step::IntervalNew { period, behavior });
                 }
@@ -785,6 +810,7 @@ pub fn cmd(args: &Args) -> Report {
                     Step::Timeout { .. } => "steps_timeout",
                     Step::Select { .. } => "steps_select",
                     Step::PollDrop(_) => "steps_poll_then_drop",
+                    Step::TwinDrop(_) => "steps_twin_timers_first_dropped",
                     Step::Reset { .. } => "steps_reset",
                     Step::ResetLate { .. } => "steps_reset_after_deadline",
                     Step::IntervalNew { .. } => "steps_interval_new",
